@@ -6,23 +6,25 @@ import subprocess, sys, os, shutil
 rel, old, new, ids = sys.argv[1], sys.argv[2], sys.argv[3], sys.argv[4:]
 env = dict(os.environ, GOFLAGS='-mod=mod', GOPROXY='off', GOSUMDB='off', GOTOOLCHAIN='local')
 env.pop('GOWORK', None)
-if subprocess.run(['git','-C','/repo','status','--porcelain'],capture_output=True,text=True).stdout.strip():
-    sys.exit('/repo is dirty')
-p = os.path.join('/repo', rel)
+# works on a scratch copy of /repo's HEAD (never on /repo itself), removed afterwards
+import tempfile
+REPO = tempfile.mkdtemp(prefix='verif-tryedit.', dir='/tmp')
+subprocess.run('git -C /repo archive HEAD | tar -x -C ' + REPO, shell=True, check=True)
+p = os.path.join(REPO, rel)
 s = open(p).read()
 old = old.encode().decode('unicode_escape'); new = new.encode().decode('unicode_escape')
 if s.count(old) != 1:
     sys.exit('old occurs %d times' % s.count(old))
 try:
     open(p,'w').write(s.replace(old, new))
-    b = subprocess.run(['go','build','./...'],cwd='/repo',env=env,capture_output=True,text=True)
+    b = subprocess.run(['go','build','./...'],cwd=REPO,env=env,capture_output=True,text=True)
     if b.returncode != 0:
         print('DOES NOT BUILD:', b.stderr[:600]); sys.exit(3)
-    os.makedirs('/tmp/verif-seedrun', exist_ok=True)
-    shutil.copy('/verif/known_findings.json','/tmp/verif-seedrun/')
+    os.makedirs('/tmp/verif-tryedit-root', exist_ok=True)
+    shutil.copy('/verif/known_findings.json','/tmp/verif-tryedit-root/')
     hit = []
     for i in ids:
-        r = subprocess.run(['/verif/bin/verifsa','check',i,'-root','/tmp/verif-seedrun'],env=env,capture_output=True,text=True)
+        r = subprocess.run(['/verif/bin/verifsa','check',i,'-repo',REPO,'-root','/tmp/verif-tryedit-root'],env=env,capture_output=True,text=True)
         out = r.stdout + r.stderr
         if 'VIOLATION' in out:
             hit.append(i)
@@ -31,4 +33,4 @@ try:
                     print('   [%s] %s' % (i, l[:300]))
     print('EDIT caught by:', ' '.join(hit) or 'NONE')
 finally:
-    subprocess.run(['git','-C','/repo','checkout','--','.'])
+    shutil.rmtree(REPO, ignore_errors=True)
